@@ -28,6 +28,11 @@ type ChildInfo struct {
 	TLS   string `json:"tls"`
 	MITM  string `json:"mitm"`
 	PP    string `json:"pp"` // listener that expects a PROXY protocol header
+	// proxies whose upstream proxy (http / socks5) is a blackhole: dials to it stay pending until the connect
+	// timeout (300 ms) ends the context the dialer was given; 3 dial attempts
+	UpBH    string `json:"upbh"`
+	SocksBH string `json:"socksbh"`
+	BHErr   string `json:"bh_err"`
 	Pid   int    `json:"pid"`
 }
 
@@ -54,7 +59,14 @@ func HostileChild(memLimit int64, readHeaderTimeout time.Duration) {
 	tl := mk(Options{Namespace: "vft", TLSListener: true})
 	mitm := mk(Options{Namespace: "vfm", MITM: true})
 	pp := mk(Options{Namespace: "vfpp", ProxyProtocol: 500 * time.Millisecond})
-	b, _ := json.Marshal(ChildInfo{Plain: plain.Addr, TLS: tl.Addr, MITM: mitm.Addr, PP: pp.Addr, Pid: os.Getpid()})
+	info := ChildInfo{Plain: plain.Addr, TLS: tl.Addr, MITM: mitm.Addr, PP: pp.Addr, Pid: os.Getpid()}
+	if bh, err := Blackhole(); err != nil {
+		info.BHErr = err.Error()
+	} else {
+		info.UpBH = mk(Options{Namespace: "vfub", Upstream: "http://" + bh, ConnectTimeout: 300 * time.Millisecond, DialAttempts: 3}).Addr
+		info.SocksBH = mk(Options{Namespace: "vfsb", Upstream: "socks5://" + bh, ConnectTimeout: 300 * time.Millisecond, DialAttempts: 3}).Addr
+	}
+	b, _ := json.Marshal(info)
 	fmt.Println(string(b))
 	io.Copy(io.Discard, os.Stdin)
 	os.Exit(0)
@@ -80,6 +92,7 @@ type HostileResult struct {
 	RSSPeak   int64   `json:"rss_peak_kb"`
 	Seconds   float64 `json:"seconds"`
 	Note      string  `json:"note"`
+	Want      int     `json:"want"` // status the statement requires for this stream (0 = none)
 }
 
 type child struct {
@@ -194,6 +207,9 @@ type stream struct {
 	pause    time.Duration // between chunks
 	end      string        // "fin" | "rst" | "hold" (keep open while probing)
 	viaTLS   bool          // speak TLS to the listener first (tls listener), then send the bytes inside
+	want     int           // status the statement requires (0 = none)
+	waitReply bool         // with end "hold": wait for the proxy's reply before probing
+	settle   time.Duration // with end "rst": wait this long after the reset before probing
 	connect  string        // send "CONNECT <target>" first, expect 200, perform a TLS handshake with the proxy (MITM), then send the bytes inside
 }
 
@@ -482,6 +498,10 @@ func RunHostile(self, tier string, seed uint64, only string) []HostileResult {
 			return ch.info.MITM
 		case "pp":
 			return ch.info.PP
+		case "upbh":
+			return ch.info.UpBH
+		case "socksbh":
+			return ch.info.SocksBH
 		}
 		return ch.info.Plain
 	}
@@ -514,9 +534,15 @@ func RunHostile(self, tier string, seed uint64, only string) []HostileResult {
 		return ok, float64(time.Since(t0).Microseconds()) / 1000, txt
 	}
 
+	wantOf := map[string]int{}
 	run := func(name, listener string, sent int, drive func() (string, string, int)) {
 		if only != "" && only != name+"@"+listener && only != name {
 			return
+		}
+		if ch != nil && !ch.alive() && len(out) > 0 && !out[len(out)-1].Crashed {
+			// the child died after the previous stream had been probed: that stream is the cause
+			out[len(out)-1].Crashed = true
+			out[len(out)-1].ExitText = "(died after the probe) " + ch.exitText()
 		}
 		if ch == nil || !ch.alive() {
 			restart()
@@ -525,7 +551,7 @@ func RunHostile(self, tier string, seed uint64, only string) []HostileResult {
 				return
 			}
 		}
-		r := HostileResult{Name: name, Listener: listener, Sent: sent, RSSBefore: rssKB(ch.info.Pid)}
+		r := HostileResult{Name: name, Listener: listener, Sent: sent, RSSBefore: rssKB(ch.info.Pid), Want: wantOf[name+"@"+listener]}
 		t0 := time.Now()
 		r.Reply, r.Verdict, r.Status = drive()
 		time.Sleep(5 * time.Millisecond)
@@ -534,8 +560,8 @@ func RunHostile(self, tier string, seed uint64, only string) []HostileResult {
 			r.ExitText = ch.exitText()
 		} else {
 			pl := listener
-			if pl == "origin" {
-				pl = "plain"
+			if pl == "origin" || pl == "upbh" || pl == "socksbh" {
+				pl = "plain" // same process; a request through the blackholed upstream could not be served
 			}
 			r.ProbeOK, r.ProbeMS, r.ProbeText = probe(pl)
 			if !r.ProbeOK && !ch.alive() {
@@ -548,7 +574,23 @@ func RunHostile(self, tier string, seed uint64, only string) []HostileResult {
 		out = append(out, r)
 	}
 
-	for _, s := range hostileStreams(tier, seed, origin.Addr) {
+	streams := hostileStreams(tier, seed, origin.Addr)
+	// dials that are still pending when the context they were given ends (connect timeout): 504, and the process lives
+	if ch.info.BHErr != "" {
+		out = append(out, HostileResult{Name: "blackhole-setup", Listener: "upbh", Note: ch.info.BHErr, ProbeOK: true})
+	} else {
+		for _, l := range []string{"upbh", "socksbh"} {
+			streams = append(streams,
+				stream{name: "connect-dial-pending-at-connect-timeout", listener: l, end: "hold", want: 504, waitReply: true,
+					chunks: [][]byte{[]byte("CONNECT example.invalid:443 HTTP/1.1\r\nHost: example.invalid:443\r\n\r\n")}},
+				stream{name: "connect-dial-pending-client-gone", listener: l, end: "rst", pause: 100 * time.Millisecond, settle: 350 * time.Millisecond,
+					chunks: [][]byte{[]byte("CONNECT example.invalid:443 HTTP/1.1\r\nHost: example.invalid:443\r\n\r\n")}})
+		}
+	}
+	for _, s := range streams {
+		wantOf[s.name+"@"+s.listener] = s.want
+	}
+	for _, s := range streams {
 		s := s
 		total := 0
 		for _, b := range s.chunks {
@@ -598,7 +640,13 @@ func RunHostile(self, tier string, seed uint64, only string) []HostileResult {
 			case "rst":
 				time.Sleep(5 * time.Millisecond)
 				Reset(c)
+				time.Sleep(s.settle)
 			case "hold":
+				if s.waitReply {
+					co := <-got
+					c.Close()
+					return truncate(co.Raw, 120), co.P.Verdict, co.P.Status
+				}
 				// keep the connection open while the probe runs; the proxy's read-header timeout (2 s) ends it
 				go func() { time.Sleep(3 * time.Second); c.Close() }()
 				return "(held open)", "", 0
@@ -698,6 +746,11 @@ func RunHostile(self, tier string, seed uint64, only string) []HostileResult {
 		}
 	}
 	if ch != nil {
+		time.Sleep(20 * time.Millisecond)
+		if !ch.alive() && len(out) > 0 && !out[len(out)-1].Crashed {
+			out[len(out)-1].Crashed = true
+			out[len(out)-1].ExitText = "(died after the probe) " + ch.exitText()
+		}
 		ch.stop()
 	}
 
